@@ -2,6 +2,7 @@ import EaselModel.Core.Proto
 import EaselModel.Random.Model
 import EaselModel.Dist.FloatInst
 import EaselModel.Generated.Dist
+import EaselModel.Dist.Mix
 /-! Line-protocol driver for the C10 model: runs the TRANSLATED functions at `Float`.
     `f fn=<name> a=<bits>,<bits>,…`            → `ok <bits>`
     `f2 fn=<g>,<f> a=<x>,<params…>`             → `ok <bits of g(f(x,params),params)>`
@@ -37,6 +38,67 @@ def uniLoop : Nat → Rng → List String → Option (List String)
     match r.uniformPositive fuel with
     | none => none
     | some (x, r') => uniLoop k r' (hex64 (Float.ofNat x / 4294967296.0).toBits :: acc)
+
+def argBits? (ws : List String) (k : String) : Option Float := (arg? ws k).bind parseBits
+def argList? (ws : List String) (k : String) : Option (List Float) := (arg? ws k).bind parseBitsList
+
+/-- the six x-functions of a mixture, by name -/
+def mixEval (ws : List String) (fn : String) (x : Float) : Option Float :=
+  match arg? ws "fam" with
+  | some "hxp" =>
+    match argBits? ws "mu", argList? ws "q", argList? ws "l" with
+    | some mu, some q, some l =>
+      if q.length != l.length || q.isEmpty then none else
+      let qs := q.zip l
+      match fn with
+      | "pdf" => some (Mix.hxp_pdf x mu qs) | "logpdf" => some (Mix.hxp_logpdf x mu qs)
+      | "cdf" => some (Mix.hxp_cdf x mu qs) | "logcdf" => some (Mix.hxp_logcdf x mu qs)
+      | "surv" => some (Mix.hxp_surv x mu qs) | "logsurv" => some (Mix.hxp_logsurv x mu qs)
+      | _ => none
+    | _, _, _ => none
+  | some "mixgev" =>
+    match argList? ws "q", argList? ws "mu", argList? ws "l", argList? ws "al" with
+    | some q, some mu, some l, some al =>
+      if q.length != l.length || q.length != mu.length || q.length != al.length || q.isEmpty then none else
+      let qs := q.zip (mu.zip (l.zip al))
+      match fn with
+      | "pdf" => some (Mix.mixgev_pdf x qs) | "logpdf" => some (Mix.mixgev_logpdf x qs)
+      | "cdf" => some (Mix.mixgev_cdf x qs) | "logcdf" => some (Mix.mixgev_logcdf x qs)
+      | "surv" => some (Mix.mixgev_surv x qs) | "logsurv" => some (Mix.mixgev_logsurv x qs)
+      | _ => none
+    | _, _, _, _ => none
+  | _ => none
+
+/-- `esl_hxp_Sample` / `esl_mixgev_Sample`: `k = DChoose(r, q)`, then the component's `Sample(r, …)` -/
+def mixSampleLoop (ws : List String) : Nat → Rng → List String → Option (List String)
+  | 0, _, acc => some acc.reverse
+  | n+1, r, acc =>
+    let (x0, r1) := r.randomNum
+    let roll := Float.ofNat x0 / 4294967296.0
+    match argList? ws "q" with
+    | none => none
+    | some q =>
+      match Mix.dchoose roll q, r1.uniformPositive fuel with
+      | some k, some (xu, r2) =>
+        let u := Float.ofNat xu / 4294967296.0
+        let v : Option Float :=
+          match arg? ws "fam" with
+          | some "hxp" =>
+            match argBits? ws "mu", argList? ws "l" with
+            | some mu, some l => (l[k]?).map fun lk => Gen.esl_exp_Sample u mu lk
+            | _, _ => none
+          | some "mixgev" =>
+            match argList? ws "mu", argList? ws "l", argList? ws "al" with
+            | some mu, some l, some al =>
+              match mu[k]?, l[k]?, al[k]? with
+              | some m, some lk, some ak => some (Gen.esl_gev_Sample u m lk ak)
+              | _, _, _ => none
+            | _, _, _ => none
+          | _ => none
+        match v with
+        | some v => mixSampleLoop ws n r2 (hex64 v.toBits :: acc)
+        | none => none
+      | _, _ => none
 
 def step (s : Unit) (line : String) : Unit × String :=
   let ws := words line
@@ -77,8 +139,22 @@ def step (s : Unit) (line : String) : Unit × String :=
       | some vs => (s, "ok " ++ ",".intercalate vs)
       | none => (s, "bad-op")
     | _, _, _, _ => (s, "bad-op")
-  | "mix" :: _ => (s, "unmodelled")
-  | "mixsample" :: _ => (s, "unmodelled")
+  | "mix" :: _ =>
+    match arg? ws "fn", argBits? ws "x" with
+    | some "invcdf", _ => (s, "unmodelled")           -- bracketing/bisection loops: monitor-only
+    | some fn, some x =>
+      match mixEval ws fn x with
+      | some v => (s, s!"ok {hex64 v.toBits}")
+      | none => (s, "bad-op")
+    | _, _ => (s, "bad-op")
+  | "mixsample" :: _ =>
+    match argNat? ws "seed", argNat? ws "k" with
+    | some sd, some k =>
+      if sd = 0 then (s, "bad-op") else
+      match mixSampleLoop ws k (Rng.create .mersenne (UInt32.ofNat sd)) [] with
+      | some vs => (s, "ok " ++ ",".intercalate vs)
+      | none => (s, "bad-op")
+    | _, _ => (s, "bad-op")
   | _ => (s, "bad-op")
 
 def main : IO Unit := runDriver () step
